@@ -303,12 +303,28 @@ func (w *W) finish(code int) {
 	os.Exit(code)
 }
 
+func cpuNow() time.Duration {
+	var ru syscall.Rusage
+	if syscall.Getrusage(syscall.RUSAGE_SELF, &ru) != nil {
+		return 0
+	}
+	return time.Duration(ru.Utime.Nano() + ru.Stime.Nano())
+}
+
 func (w *W) watchdog() {
 	memLimit := uint64(6 << 30)
+	var cpuFor int64
+	var cpuAt time.Duration
 	for {
 		time.Sleep(250 * time.Millisecond)
 		st := w.started.Load()
-		if st != 0 && time.Since(time.Unix(0, st)) > w.wd {
+		// A case counts as hung when it has burnt more than the budget in CPU time (robust
+		// against a loaded machine) or has made no progress for six times the budget in
+		// wall-clock time (a blocked wait burns no CPU).
+		if st != 0 && st != cpuFor {
+			cpuFor, cpuAt = st, cpuNow()
+		}
+		if st != 0 && (cpuNow()-cpuAt > w.wd || time.Since(time.Unix(0, st)) > 6*w.wd) {
 			// re-check that it is still the same case
 			time.Sleep(10 * time.Millisecond)
 			if w.started.Load() == st {
